@@ -175,6 +175,28 @@ def print_opdef(od):
     return {"ext": od._extension.name if od._extension is not None else "", "name": od.name, "descr": od.description}
 
 
+def extop_descr(op):
+    """the free-text description a definition-backed operation is written with: the field of the serialised operation
+    (the property speaks of the serialised document; it leaves open whether a resolved operation carries the
+    description it was loaded with or its definition's, so the model takes it from here - x_descr, checked for
+    admissibility by the specification).  When the operation cannot be serialised the description is not observable
+    on the wire; the conversion back to an opaque operation is asked instead."""
+    from hugr.hugr.node_port import Node
+    try:
+        d = op._to_serial(Node(0)).description
+        if isinstance(d, str):
+            return d
+    except Exception:  # noqa: BLE001
+        pass
+    try:
+        d = op.to_custom_op().description
+        if isinstance(d, str):
+            return d
+    except Exception:  # noqa: BLE001
+        pass
+    return op.op_def().description
+
+
 def print_ty(t):
     from hugr import tys
     if isinstance(t, tys.UnitSum):
@@ -480,7 +502,7 @@ class Lit:
         if k == "extop":
             x = o[1]
             return gapp("OExt", gapp("Build_extop", self.opdef(x["def"]), self.ft(x["sig"]),
-                                     glist(self.arg(a) for a in x["args"])))
+                                     glist(self.arg(a) for a in x["args"]), self.name(x["descr"])))
         return gapp("OOther", gN(self.n(("other", o[1]))))
 
     def export(self, e):
@@ -1510,7 +1532,7 @@ def print_hop(h, n):
                                   "descr": op.description, "args": [print_arg(a) for a in op.args]}]]
     if type(op) is ops.ExtOp and op.signature is not None:
         return ["op", ["extop", {"def": print_opdef(op._op_def), "sig": print_ft(op.signature),
-                                 "args": [print_arg(a) for a in op.args]}]]
+                                 "args": [print_arg(a) for a in op.args], "descr": extop_descr(op)}]]
     if isinstance(op, ops.Const):
         return ["const", print_cval(op.val)]
     ndp = [guard(lambda d=d: ops._num_dataflow_ports(op, d)) for d in (Direction.INCOMING, Direction.OUTGOING)]
@@ -2122,7 +2144,7 @@ class C11(fw.Prop):
             if type(op) is ops.ExtOp and op.signature is not None:
                 try:
                     return ["extop", {"def": print_opdef(op._op_def), "sig": print_ft(op.signature),
-                                      "args": [print_arg(a) for a in op.args]}]
+                                      "args": [print_arg(a) for a in op.args], "descr": extop_descr(op)}]
                 except Unprintable:      # a directly built ExtOp over std ExtType subclasses: an "other" node
                     pass
             return ["other", json.dumps(ser_dict(op), sort_keys=True)]
